@@ -385,7 +385,9 @@ class BinTruth(object):
         else:
             if isinstance(sc, list):
                 arr = np.array(sc, dtype="f8")
-                self.scale_c = arr.tolist() if kind == "list" else arr
+                # the per-point scale is an array argument like the coordinates: same container kinds
+                # (f4 rounds the values, the truth then uses the rounded ones)
+                self.scale_c, arr = htmsets.as_container(arr, kind)
                 s = sepdeg * sphere.D2R * arr.astype(LD)[:, None]
             else:
                 self.scale_c = float(sc)
